@@ -52,7 +52,9 @@ def same_value(ev, a, b):
     if ev == 'f64': return a == b
     if ev == 'complex': return z3.And(a[1] == b[1], a[2] == b[2])
     if ev == 'number':
-        if a[0] == 'sadt' or b[0] == 'sadt': raise Unsupported('symbolic Number variant in a token')
+        if a[0] == 'sadt' or b[0] == 'sadt':
+            from .player import leaf_equal
+            return leaf_equal('number', a, b)      # a Number whose variant is decided by a condition (e.g. produced by Number::from)
         if a[2] != b[2]: return False
         return sem.same_int(a[3][0], b[3][0]) if a[2] == 'Integer' else (a[3][0] == b[3][0])
     if ev == 'decimal': return a[1] == b[1]
